@@ -25,7 +25,7 @@ def run(tier, seed):
     wd = workdir("c07")
     thorough = tier == "thorough"
     shards = 14 if thorough else 8
-    n = 4000 if thorough else 160
+    n = 4000 if thorough else 120
     p = harness(["evm-trace", "--seed", seed, "--programs", n, "--shards", shards, "--out", os.path.join(wd, "e")], timeout=3000)
     info = json.loads(p.stdout.strip().splitlines()[-1])
     paths = [os.path.join(wd, f"e.{s}.ndjson") for s in range(shards)]
